@@ -64,6 +64,12 @@ const (
 )
 
 func c36IsOpen(id string) bool {
+	// development aid only (patch workflow step 3c): C36_ASSUME_FIXED=id1,id2 treats findings as fixed
+	for _, x := range strings.Split(os.Getenv("C36_ASSUME_FIXED"), ",") {
+		if x == id {
+			return false
+		}
+	}
 	if vh.OpenFinding("C36", id) {
 		return true
 	}
@@ -319,6 +325,13 @@ func c36Hash(s string) string {
 // c36RoundTrip runs one case. It returns ("", nil) on agreement, a description of the violation,
 // or an error for environment trouble. skipped reports that dolt rejected the build script.
 func (e *c36Env) sqlRoundTrip(db *c36DB, v c36Variant, keep bool) (violation string, skipped string, err error) {
+	fp, names := db.fingerprintScript()
+	return e.rawRoundTrip(db.buildScript(), fp, names, v, keep)
+}
+
+// rawRoundTrip: build script -> source; dump; load into a fresh repository; compare the observations
+// that the fingerprint script fp (sections names) makes on both.
+func (e *c36Env) rawRoundTrip(build, fp string, names []string, v c36Variant, keep bool) (violation string, skipped string, err error) {
 	e.n++
 	caseDir, err := os.MkdirTemp(e.root, "case")
 	if err != nil {
@@ -339,14 +352,12 @@ func (e *c36Env) sqlRoundTrip(db *c36DB, v c36Variant, keep bool) (violation str
 	if err != nil {
 		return "", "", err
 	}
-	build := db.buildScript()
 	if _, se, err := e.run(src, []byte(build), "sql"); err != nil {
 		if err == errC36Timeout {
 			return "", "", err
 		}
 		return "", "build rejected: " + c36Clip(se), nil
 	}
-	fp, names := db.fingerprintScript()
 	srcOut, se, err := e.run(src, []byte(fp), "sql", "-r", "csv")
 	if err != nil {
 		if err == errC36Timeout {
